@@ -58,6 +58,9 @@ def params(draw, model):
     spec['V0'] = dn(v0, 2)
     if model == 'SIMEX1':
         spec['YD0'] = dn(draw(st.integers(0, 20000)), 2)
+        # ... or no initial expected income stated at all: the library default 0 applies (the builder's own value 16
+        # when the book's start-up values were asked for)
+        spec['YD0_stated'] = draw(st.sampled_from([True, True, False]))
     if model == 'PC':
         spec['lambda0'] = dn(draw(st.integers(sc * 2 // 10, sc * 8 // 10)), places)
         spec['lambda1'] = dn(draw(st.integers(0, 8 * sc)), places)
@@ -80,7 +83,10 @@ def closed_form(spec):
     G = [F(g) for g in spec['G']]
     T = spec['T']
     V = [F(spec['V0'])]
-    out = {'Y': [None], 'T': [None], 'YD': [F(spec.get('YD0', '0'))], 'C': [None], 'V': V}
+    yd0 = spec.get('YD0', '0')
+    if spec.get('YD0_stated') is False:
+        yd0 = '16' if spec.get('book_start') else '0'
+    out = {'Y': [None], 'T': [None], 'YD': [F(yd0)], 'C': [None], 'V': V}
     model = spec['model']
     if model == 'PC':
         l0, l1, l2 = F(spec['lambda0']), F(spec['lambda1']), F(spec['lambda2'])
@@ -141,7 +147,7 @@ def run_framework(spec):
     if v0 != 0.0 or model != 'SIM' or book_start:
         hh.AddInitialCondition('F', v0)
         gov.AddInitialCondition('F', -v0)
-    if model in ('SIMEX1', 'PC'):
+    if model in ('SIMEX1', 'PC') and spec.get('YD0_stated') is not False:
         hh.AddInitialCondition('AfterTax', float(spec['YD0']))
     if model == 'PC':
         hh.SetEquationRightHandSide('L0', spec['lambda0'])
